@@ -93,7 +93,7 @@ def check(col, prog, tier, profile, fixture=None):
     crate = prog.crate(fixture or "rlib_f80")
     sfx = "" if profile == "dev" else "@" + profile
     fk = util.fkey
-    col.rule("X1" + sfx, "every asm block: balanced x87 stack, stored expression = specification, widths match, conditions false on unordered", floor=10)
+    col.rule("X1" + sfx, "every asm block: balanced x87 stack, stored expression = specification, widths match, conditions false on unordered", floor=9)
     col.rule("X2" + sfx, "comparison family: gt/ge swapped lt/le, no negations, partial_cmp table", floor=4)
     col.rule("X3" + sfx, "== is numeric (through the comparisons), not derived on bytes; no Eq", floor=2)
     col.rule("X4" + sfx, "assigning operators delegate to the matching operator; abs; Default = ZERO", floor=6)
@@ -197,8 +197,40 @@ def check(col, prog, tier, profile, fixture=None):
                 col.ok("X1" + sfx, loc, key, "%s; depth max %d, balanced" % ("; ".join(lines), m.maxdepth))
             else:
                 col.violation("X1" + sfx, key, loc, "%s: the x87 block does not compute the specified result: %s" % (b.path, why), {"lines": lines})
-    if not fixture and nblocks < 10:
-        col.violation("X1" + sfx, "asm-block-count", "-", "expected at least 10 asm blocks on this target (4 arithmetic, neg, lt, min, max, 2 conversions), found %d" % nblocks)
+    # operators that carry no x87 block at all must be a recognised exact equivalent
+    required = [("Add", "add"), ("Sub", "sub"), ("Mul", "mul"), ("Div", "div"), ("Neg", "neg")]
+    for tr_, nm_ in required:
+        ob = None
+        for b_ in crate.bodies:
+            imp_ = crate.impl_of(b_)
+            if imp_ is not None and (imp_.get("trait") or "").split("::")[-1] == tr_ and b_.name == nm_ and imp_["self_ty"] == "f80":
+                ob = b_
+        if ob is None:
+            col.violation("X1" + sfx, "f80|%s|missing" % tr_, "-", "f80 does not implement %s" % tr_)
+            continue
+        if any(blk["term"]["k"] == "asm" for blk in ob.blocks):
+            continue
+        I_ = util.analyse(ob)
+        verdict = None
+        for st in I_.final_states:
+            r = util.ret_term(st)
+            p1 = ("param", 1, I_.names.get(1))
+            if nm_ == "neg" and r[0] == "call" and str(r[1]).endswith("Sub>::sub") and r[2][1] == p1 and (r[2][0][0] == "assoc" and r[2][0][2] == "ZERO" or r[2][0] == ("fconst", 0.0, "f64")):
+                verdict = "negation is computed as ZERO - self: -(+0) is then +0 instead of -0 (and a NaN keeps its sign); use fchs, a sign-bit flip or multiplication by -1"
+            elif nm_ == "neg" and r[0] == "call" and str(r[1]).endswith("Mul>::mul") and p1 in r[2][:2]:
+                other = [x for x in r[2][:2] if x != p1]
+                if other and other[0][0] == "call" and any(s_ == ("fconst", -1.0, "f64") for s_ in subterms(other[0])):
+                    continue  # self * -1 is exact for every operand incl. zeros
+                verdict = "unrecognised implementation of negation: %s" % tstr(r)[:120]
+            else:
+                verdict = "%s is implemented without an x87 block by %s, which is not a recognised exact equivalent" % (ob.path, tstr(r)[:120])
+        key = "%s|no-asm" % fk(ob)
+        if verdict:
+            col.violation("X1" + sfx, key, ob.loc(), verdict)
+        else:
+            col.ok("X1" + sfx, ob.loc(), key, "exact equivalent without asm")
+    if not fixture and nblocks < 9:
+        col.violation("X1" + sfx, "asm-block-count", "-", "expected at least 9 asm blocks on this target (4 arithmetic, lt, min, max, 2 conversions; neg/le may be exact equivalents), found %d" % nblocks)
 
     # ---------------- X2
     def body_of(tr, nm):
